@@ -1837,11 +1837,12 @@ class Data(BaseCartesianData):
         if isinstance(data, categorical_ndarray):
             data = data.codes
 
-        if axis is None and mask is None and statistic != 'sum':
+        if axis is None and mask is None and statistic not in ('sum', 'percentile'):
             # Since we are just finding overall statistics, not along axes, we
             # can remove any broadcasted dimension since these should not affect
-            # the statistics (except for the sum, which depends on how many
-            # times each value is repeated).
+            # the statistics (except for the sum and the interpolated
+            # percentiles, which depend on how many times each value is
+            # repeated).
             data = unbroadcast(data)
 
         if random_subset and data.size > random_subset:
